@@ -2,12 +2,13 @@ package main
 
 // C06 (and the writer halves of C13/C16/C18): wsutil.Writer driven by operation sequences.
 //   wr <side S|C> <opcode> <ctor> <ext -|c0|c1> <fail -|idx> <seed> <op>...
-// ctor: new | size:N | bufsize:N | buf:N | get:N
+// ctor: new | size:N | bufsize:N | buf:N | bufc:N (buf with spare capacity) | get:N
 // ops : w:<hex> wt:<hex> ff fl g:<n> nf rf:<k>:<hex>:<fin> rs:<S|C>:<op> ro:<op> se:<ext> av
 // Observed: one item per op "result@destwrite,destwrite" joined by ';', then " masks=<m,m,...>"
 // (the masks ws.NewMask() will draw: math/rand is seeded per case, so they are an input of the model).
 
 import (
+	"bytes"
 	"encoding/binary"
 	"fmt"
 	"math/rand"
@@ -83,6 +84,11 @@ func mkWriter(d *recDst, st ws.State, op ws.OpCode, ctor string) *wsutil.Writer 
 		return wsutil.NewWriterBufferSize(d, st, op, n)
 	case "buf":
 		return wsutil.NewWriterBuffer(d, st, op, make([]byte, n))
+	case "bufc":
+		// a caller-supplied slice with spare capacity behind it (a pooled slice, big[:n]); the spare part
+		// holds recognisable stale bytes
+		big := bytes.Repeat([]byte{0xEE}, n+70000)
+		return wsutil.NewWriterBuffer(d, st, op, big[:n])
 	case "get":
 		return wsutil.GetWriter(d, st, op, n)
 	}
@@ -264,6 +270,23 @@ func genC06(tier string, r *rng) {
 			}
 		}
 	}
+	// growth while flush is disabled, across the 125 and 65535 reservation thresholds, with bytes already
+	// buffered; caller-supplied buffers with and without spare capacity
+	for _, sd := range sides {
+		for _, kind := range []string{"buf", "bufc"} {
+			for _, raw := range []int{16, 64, 130, 200} {
+				ctor := kind + ":" + strconv.Itoa(raw)
+				for _, first := range []int{1, 7, 50, 120} {
+					for _, second := range []int{10, 100, 300} {
+						writerSeq(sd, 2, ctor, "-", "-", raw+first, []string{"nf", "w:" + hx(r.bytes(first)), "w:" + hx(r.bytes(second)), "av", "fl"})
+						writerSeq(sd, 2, ctor, "-", "-", raw+first, []string{"w:" + hx(r.bytes(first)), "g:" + strconv.Itoa(second+200), "av", "w:" + hx(r.bytes(second)), "fl"})
+					}
+				}
+				writerSeq(sd, 1, ctor, "-", "-", raw, []string{"nf", "w:" + hx(r.bytes(100)), "w:" + hx(r.bytes(66000)), "fl"})
+				writerSeq(sd, 1, ctor, "-", "-", raw, []string{"nf", "rf:7:" + hx(r.bytes(400)) + ":E", "fl"})
+			}
+		}
+	}
 	// constructors
 	for _, sd := range sides {
 		for _, ctor := range []string{"new", "size:0", "size:1", "size:125", "size:126", "size:65535", "size:65536", "bufsize:0", "bufsize:2", "bufsize:3", "bufsize:7", "buf:2", "buf:3", "buf:6", "buf:7", "get:1", "get:100", "get:128", "get:129", "get:5000", "get:65536", "get:70000"} {
@@ -284,6 +307,8 @@ func genC06(tier string, r *rng) {
 		ctor := "buf:" + strconv.Itoa(raw)
 		if r.intn(5) == 0 {
 			ctor = "size:" + strconv.Itoa(1+r.intn(200))
+		} else if r.intn(4) == 0 {
+			ctor = "bufc:" + strconv.Itoa(raw)
 		}
 		av := availOf(sd, ctor)
 		var seq []string
